@@ -7,7 +7,7 @@
      dup_at / bad_at  : src = pre ++ (o,v) :: post, pre is fine, (o,v) is the first duplicate / first refused pair
      accepted o src   : parser results of the occurrences of o in src, in order (parser applied to the implicit
                         value where the string is empty and the option has an implicit value)                       *)
-Require Import V.Lib.Base V.Gen.Consts_C15 V.C15.Model V.C15.Spec V.C15.Proofs V.C15.Proofs2.
+Require Import V.Lib.Base V.Gen.Consts_C15 V.C15.Model V.C15.Spec V.C15.Proofs V.C15.Proofs2 V.C15.Proofs3.
 Local Open Scope Z_scope.
 
 (* no exception  <->  the source has neither a duplicate nor a refused pair *)
@@ -184,6 +184,54 @@ Proof.
 Qed.
 Print Assumptions c15_defaults_invalid.
 
+(* ---- the parsed set may hold names that are NOT options of the context (ParsedOptions::add(name); one ParsedOptions object shared by
+   two contexts that read the same command line).  assignDefaults asks ONE question per option of the context - "is this option's own
+   name in the set?" - so such names, and with them the SIZE of the set, are irrelevant (in particular a set that holds exactly as
+   many names as the context has options does NOT mean that every option was given).  Options are the indices 0..n-1; every other
+   index is a foreign name.  Together with c15_defaults / c15_defaults_invalid (which already quantify over EVERY list `parsed`): each
+   option whose own name is not in the set and that has a default receives it (state defaulted), options in the set are untouched, and
+   an invalid default is reported exactly for an unmentioned option. ---- *)
+Theorem c15_defaults_own_names_only :
+  forall (val var : Type) (odesc : nat -> opt) (parser : nat -> str -> option val)
+         (store : nat -> val -> var -> var) (fail_write : nat -> str -> var -> var)
+         (n : nat) (parsed parsed' : list nat) (cs : nat -> @cell val var),
+    (forall o, (o < n)%nat -> mem o parsed = mem o parsed') ->
+    assign_defaults val var odesc parser store fail_write parsed cs (seq 0 n) =
+    assign_defaults val var odesc parser store fail_write parsed' cs (seq 0 n).
+Proof.
+  intros val var odesc parser store fail_write n parsed parsed' cs H.
+  apply defaults_membership_only. intros o Ho. apply in_seq in Ho. apply H. lia.
+Qed.
+Print Assumptions c15_defaults_own_names_only.
+
+(* any number of foreign names, added in front of (= anywhere in) the set, changes neither the cells nor the reported error *)
+Theorem c15_defaults_foreign_names :
+  forall (val var : Type) (odesc : nat -> opt) (parser : nat -> str -> option val)
+         (store : nat -> val -> var -> var) (fail_write : nat -> str -> var -> var)
+         (n : nat) (extra parsed : list nat) (cs : nat -> @cell val var),
+    (forall j, In j extra -> (n <= j)%nat) ->
+    (assign_defaults val var odesc parser store fail_write (extra ++ parsed) cs (seq 0 n) =
+     assign_defaults val var odesc parser store fail_write parsed cs (seq 0 n)) /\
+    (assign_defaults val var odesc parser store fail_write parsed cs (seq 0 n) =
+     assign_defaults val var odesc parser store fail_write (filter (fun j => (j <? n)%nat) parsed) cs (seq 0 n)).
+Proof.
+  intros val var odesc parser store fail_write n extra parsed cs H. split.
+  - exact (defaults_add_foreign val var odesc parser store fail_write n extra parsed cs H).
+  - exact (defaults_ignore_foreign val var odesc parser store fail_write n parsed cs).
+Qed.
+Print Assumptions c15_defaults_foreign_names.
+
+(* assignDefaults reports an error exactly when the default of an UNMENTIONED option (own name not in the set, default present, not
+   defaulted yet) is refused by the option's parser - whatever else the set holds *)
+Theorem c15_defaults_reported_iff :
+  forall (val var : Type) (odesc : nat -> opt) (parser : nat -> str -> option val)
+         (store : nat -> val -> var -> var) (fail_write : nat -> str -> var -> var)
+         (n : nat) (parsed : list nat) (cs : nat -> @cell val var),
+    fst (assign_defaults val var odesc parser store fail_write parsed cs (seq 0 n)) = None <->
+    (forall o d, In o (seq 0 n) -> needs_default val var odesc parsed cs o d -> parser o (eff odesc o d) <> None).
+Proof. exact defaults_error_iff. Qed.
+Print Assumptions c15_defaults_reported_iff.
+
 (* an empty value string for an option with an implicit value stores the parser's result for the implicit value *)
 Theorem c15_implicit :
   forall (val var : Type) (odesc : nat -> opt) (parser : nat -> str -> option val)
@@ -249,3 +297,24 @@ Proof.
   intros o d Hin (_ & Hd & _). simpl in Hin.
   destruct Hin as [<-|[<-|[<-|[]]]]; vm_compute in Hd; inversion Hd; subst; vm_compute; discriminate.
 Qed.
+
+(* foreign names: o0 : int default "10", o1 : std::string default "auto"; the set holds the two foreign names 9 and 10 - exactly as many
+   names as the context has options, none of them an option: both options receive their default; with o0's own name in the set as well
+   (three names) o0 is untouched; the run of the harness case `parsed.add("o9","o10") -> defaults` shows size 2 and both states defaulted *)
+Definition ex_opts2 : list copt := [mkC 2 (mkOpt false None (Some [49; 48])); mkC 3 (mkOpt false None (Some [97; 117; 116; 111]))].
+Definition ex_init2 : nat -> ccell := fun o => mkCell VALUE_UNASSIGNED [] (k_init (kind_of ex_opts2 o)).
+Example c15_ex_foreign_equal_size :
+  length [9%nat; 10%nat] = length ex_opts2 /\
+  (let '(e, cs) := assign_defaults _ _ (desc_of ex_opts2) (c_parser ex_opts2) (c_store ex_opts2) (c_fail ex_opts2) [9%nat; 10%nat] ex_init2 (seq 0 2) in
+   e = None /\ cs 0%nat = mkCell VALUE_DEFAULTED [[10]] [10] /\ cs 1%nat = mkCell VALUE_DEFAULTED [[97; 117; 116; 111]] [97; 117; 116; 111]) /\
+  (let '(e, cs) := assign_defaults _ _ (desc_of ex_opts2) (c_parser ex_opts2) (c_store ex_opts2) (c_fail ex_opts2) [9%nat; 0%nat; 10%nat] ex_init2 (seq 0 2) in
+   e = None /\ cs 0%nat = ex_init2 0%nat /\ c_state (cs 1%nat) = VALUE_DEFAULTED) /\
+  run_case [2; 2; 0; 0; 1; 2; 49; 48; 3; 0; 0; 1; 4; 97; 117; 116; 111; 4; 2; 9; 10; 2] =
+    [0; 0; 2; VALUE_DEFAULTED; 0; 1; 10; VALUE_DEFAULTED; 0; 4; 97; 117; 116; 111].
+Proof. vm_compute. repeat split; reflexivity. Qed.
+(* an invalid default ("1x" for an int) of an unmentioned option is reported although the set holds as many names as there are options *)
+Example c15_ex_foreign_invalid_default :
+  fst (assign_defaults _ _ (desc_of [mkC 2 (mkOpt false None (Some [49; 120]))]) (c_parser [mkC 2 (mkOpt false None (Some [49; 120]))])
+         (c_store [mkC 2 (mkOpt false None (Some [49; 120]))]) (c_fail [mkC 2 (mkOpt false None (Some [49; 120]))]) [5%nat]
+         (fun o => mkCell VALUE_UNASSIGNED [] (k_init 2)) (seq 0 1)) = Some (mkErr ERR_INVALID_DEFAULT 0%nat [49; 120]).
+Proof. vm_compute. reflexivity. Qed.
